@@ -249,7 +249,7 @@ def derive_items(r, pg, walk, segs, allow_nested, groups, lines, depth=0):
             right_e = k < len(out) - 1 and out[k + 1][:-1] in pg.edges
             left_ok = k == 0 or left_e
             right_ok = k == len(out) - 1 or right_e
-            if (left_e or right_e) and left_ok and right_ok and gen.chance(r, 0.35):
+            if (left_e or right_e) and left_ok and right_ok and gen.chance(r, 0.5):
                 out.pop(k)
                 continue
         k += 1
@@ -340,8 +340,11 @@ def st_paths(draw):
     r = draw(st.randoms(use_true_random=False))
     segs, slen, lines, edges, pg, walk = build_paths_case(r)
     groups = {}
-    mode = gen.choice(r, ["planted", "planted", "planted", "drop", "swap", "parallel", "random"])
+    mode = gen.choice(r, ["planted", "planted", "planted", "edges", "drop", "swap", "parallel", "random"])
     items, elided = derive_items(r, pg, walk, segs, True, groups, lines)
+    if mode == "edges" and len(walk) >= 5:
+        # the path given by its edges only (every segment is supplied)
+        items, elided = [x for i, x in enumerate(walk) if i % 2 == 1], True
     planted = list(walk)
     from_valid = False
     if mode == "drop" and len(items) >= 2:
